@@ -109,10 +109,10 @@ Qed.
 
 Lemma verify_case : forall prev,
   (exists ts, match prev with
-              | Some (LTok 135) | Some (LTok 172) | Some (LTok 174) => RErr E_LEX_NONMIN_VERIFY
+              | Some (LTok 135) | Some (LTok 156) | Some (LTok 172) | Some (LTok 174) => RErr E_LEX_NONMIN_VERIFY
               | _ => ROk [LTok 105] end = ROk ts) \/
   (match prev with
-   | Some (LTok 135) | Some (LTok 172) | Some (LTok 174) => RErr E_LEX_NONMIN_VERIFY
+   | Some (LTok 135) | Some (LTok 156) | Some (LTok 172) | Some (LTok 174) => RErr E_LEX_NONMIN_VERIFY
    | _ => @ROk (list ltoken) [LTok 105] end = RErr E_LEX_NONMIN_VERIFY).
 Proof.
   intros prev. destruct prev as [[c0| | | | | |]|]; try (left; eauto; fail).
